@@ -90,7 +90,70 @@ def cases(rng, tier):
     n = 150 if tier == "quick" else 5000
     out += bc.random_cases(rng, n, "collect")
     out += bc.random_cases(rng, n // 2, "collect", wild=0.3, tag="malformed")
+    out += evc_cases(rng, tier)
     return out
+
+
+# ORACLE-ONLY family: a flyer that hands over EVENTS from collect()/collect_pages() and external assets through the older
+# collect_asset_docs() without get_index (WritesExternalAssets, so not WritesStreamAssets): the branch of RunBundler.collect
+# for EventCollectable / EventPageCollectable objects.  Engine/Bundler.v answers EUnmodelled for such flyers.
+DET8 = {"id": 8, "caps": ["collectable", "flyable", "wea", "evc"], "describe_collect": [[9, "stream"], [10, "none"]]}
+DET9 = {"id": 9, "caps": ["collectable", "flyable", "wea", "pgc"], "describe_collect": [[9, "stream"], [10, "none"]]}
+
+
+def evc_cases(rng, tier):
+    out = []
+    for det in (DET8, DET9):
+        o = det["id"]
+        for widths in ([2, 3], [1, 1, 2], [3], [2, 0, 2]) + (([1, 2, 1, 3], [4, 1]) if tier == "thorough" else ()):
+            for rp in (True, False):
+                for declared in (True,):
+                    ops = [["open_run"], ["declare", [o], 7, True]]
+                    last = 0
+                    for k, w in enumerate(widths):
+                        assets = ([["sres", o, 9]] if k == 0 else []) + ([["sdatum", 100 + k, o, False, True, last, last + w]] if w else [])
+                        events = [[[10, 10 * k + j]] for j in range(w)]      # the internal key only: external keys may not be in events
+                        ops.append(["collect", [[o, None, assets, events]], 7, False, rp])
+                        last += w
+                    ops.append(["close_run", None, 0])
+                    c = bc.mk(DEVS45 + [DET8, DET9], ops, tag="evc %s rp=%s" % ("pages" if det is DET9 else "events", rp))
+                    c.update(kind="evc", widths=list(widths))
+                    out.append(c)
+    return out
+
+
+def oracle_evc(case, obs):
+    """the events of the stream are numbered 1..N without gaps across the collects, each collect's stream datum covers exactly
+    the seq_nums of the events handed over by that collect, and the RunStop counts N"""
+    view = bo.View()
+    nxt = 1
+    total = sum(case["widths"])
+    for i, (op, o) in enumerate(zip(case["ops"], obs)):
+        k, docs, res = op[0], o["docs"], o["res"]
+        where = "op %d %s: " % (i, k)
+        if res != "ok":
+            return where + "a well-formed %s was refused (%s)" % (k, res)
+        seqs = []
+        for d in docs:
+            view.see(d)
+            if d[0] == "event":
+                seqs.append(d[3])
+            elif d[0] == "epage":
+                seqs += list(d[3]) if isinstance(d[3], list) else [d[3]]
+        if k == "collect":
+            w = len(op[1][0][3])
+            if seqs != list(range(nxt, nxt + w)):
+                return where + "the %d events handed over got seq_nums %r, expected %r" % (w, seqs, list(range(nxt, nxt + w)))
+            for d in docs:
+                if d[0] == "sdatum" and (d[6], d[7]) != (nxt, nxt + w):
+                    return where + "stream datum covers seq_nums [%d, %d), the events of this collect are [%d, %d)" % (d[6], d[7], nxt, nxt + w)
+            nxt += w
+        for d in docs:
+            if d[0] == "stop":
+                ne = dict((a, b) for a, b in d[5])
+                if ne.get(7) != total:
+                    return where + "RunStop says num_events=%r for the stream, %d events were emitted" % (ne.get(7), total)
+    return None
 
 
 def impl(case):
@@ -98,6 +161,8 @@ def impl(case):
 
 
 def coq_term(case, obs):
+    if case.get("kind") == "evc":
+        return None           # ORACLE ONLY
     if case.get("kind") == "cadence":
         # the model side runs Coq's own cadence: ties Engine/BundlerDet.v to what the fake detectors were told to do
         dets = bt.cl(case["dets"], lambda o: "mkDet %d %d %d" % (o, SKEY[o], o))
@@ -114,6 +179,8 @@ def coq_term(case, obs):
 
 
 def oracle(case, obs):
+    if case.get("kind") == "evc":
+        return oracle_evc(case, obs)
     return bo.c45(case, obs)
 
 
